@@ -22,7 +22,7 @@ pub fn compute(sc: &Scenario) {
             continue;
         }
         let mut one = sc.clone();
-        one.conns = vec![Conn { id: 0, phase: 0, twin: None, ..c.clone() }];
+        one.conns = vec![Conn { id: 0, phase: 0, twin: None, revalidate: None, ..c.clone() }];
         one.probe = Probe::None;
         one.yields.clear();
         one.sched = Sched { kind: SchedKind::RoundRobin, seed: 0, depth: 0 };
